@@ -45,10 +45,40 @@ def main():
         ctx.driver = common.Driver()
         common.quiet_tf()
         has_case = replay is not None and ("case" in replay or replay.get("first_disagreement"))
-        if has_case and hasattr(mod, "replay"):
-            mod.replay(ctx, replay)
-        else:
-            mod.run(ctx)
+        try:
+            if has_case and hasattr(mod, "replay"):
+                mod.replay(ctx, replay)
+            else:
+                mod.run(ctx)
+        except common.NonFiniteValue as e:
+            # the implementation returned NaN / inf where the model (and the unchanged tree) has a number: a failure of the
+            # implementation on the case being run, not of the machinery; the run stops at this case
+            ctx.check_prop("implementation-returned-non-finite-values", False, getattr(ctx, "last_desc", None) or {},
+                           {"error": str(e)})
+        except (common.InfraError, KeyboardInterrupt):
+            raise
+        except Exception as e:  # noqa: BLE001
+            last = getattr(ctx, "last_desc", None)
+            # An exception after the implementation was called on a case.  (a) it was raised INSIDE the implementation (outside
+            # ctx.impl_call, e.g. in a constructor): the implementation fails on a valid input - a property failure with that
+            # case as replay.  (b) it was raised in the harness while processing what the implementation returned (unexpected
+            # shape / type): the correspondence can no longer be checked - reported as a broken correspondence
+            # (-> no-failing-input-found unless a predicate failed as well).  On the unchanged tree neither happens.
+            tb = traceback.extract_tb(e.__traceback__)
+            repo = os.path.realpath(common.REPO) + os.sep
+            impl_frames = [f for f in tb if os.path.realpath(f.filename).startswith(repo)]
+            msg = (type(e).__name__ + ": " + str(e))[:500]
+            if not impl_frames and last is None:
+                raise                   # nothing of the implementation was involved: a harness bug
+            if impl_frames:
+                f = impl_frames[-1]
+                ctx.check_prop("implementation-raises", False, last or {"note": "raised before the first recorded case"},
+                               {"exception": msg, "where": f"{os.path.relpath(f.filename, repo)}:{f.lineno} in {f.name}"})
+            else:
+                ctx.corr_failures.append(("harness-cannot-process-implementation-output", last,
+                                          {"exception": msg, "at": [f"{os.path.basename(f.filename)}:{f.lineno}" for f in tb[-3:]]}))
+                traceback.print_exc()
+
         rc = ctx.finish(mod.RULE, getattr(mod, "extra", lambda c: None)(ctx))
         return rc
     except common.InfraError as e:
